@@ -517,6 +517,7 @@ func (d *Driver) Check(only []Case) int {
 	exit := 0
 	replayDir := filepath.Join(VerifDir, "replays")
 	printedKnown := map[string]bool{}
+	reruns := 0
 	for i := range res.outcomes {
 		o := &res.outcomes[i]
 		byKind[o.Kind]++
@@ -561,7 +562,19 @@ func (d *Driver) Check(only []Case) int {
 			rp := filepath.Join(replayDir, sanitize(o.CaseID)+".json")
 			os.WriteFile(rp, MustJSONIndent(map[string]any{"case": caseByID[o.CaseID], "outcome": o, "tier": d.Tier, "seed": d.Seed}), 0o644)
 			fmt.Printf("VIOLATION property=%s replay=%s\n", p.ID, rp)
-			fmt.Printf("  case=%s key=%s\n  %s\n", o.CaseID, o.Key, indent(truncate(o.Detail, 3000)))
+			repro := ""
+			if only == nil && reruns < 3 && caseByID[o.CaseID] != nil && os.Getenv("VERIF_NO_RERUN") == "" {
+				// re-run the case once from scratch in a fresh child: tells a deterministic witness from a schedule-dependent one
+				reruns++
+				rr := &runResult{races: map[string]*raceReport{}}
+				cc := *caseByID[o.CaseID]
+				d.runBatch(&batch{idx: 9000 + reruns, cases: []Case{cc}, race: cc.Race, procs: cc.Procs, env: cc.Env}, rr, &mu)
+				repro = " reproduced_on_rerun=no(schedule-dependent)"
+				if len(rr.outcomes) == 1 && rr.outcomes[0].Verdict == Violated {
+					repro = " reproduced_on_rerun=yes"
+				}
+			}
+			fmt.Printf("  case=%s key=%s%s\n  %s\n", o.CaseID, o.Key, repro, indent(truncate(o.Detail, 3000)))
 		}
 	}
 	// race reports
